@@ -469,6 +469,12 @@ def processChildRevokeKey (resources : List Nat) (c : ChildM) (childRcn key : Na
   else if !c.isIssued key then .error
   else .revoked (c.parentNameForRcn childRcn) key
 
+/-- The repaired decision (proposed fix for F-C03-1): translate the class name first, then test. -/
+def processChildRevokeKeyFixed (resources : List Nat) (c : ChildM) (childRcn key : Nat) : RevokeOut :=
+  if c.parentNameForRcn childRcn ∉ resources then .ignored
+  else if !c.isIssued key then .error
+  else .revoked (c.parentNameForRcn childRcn) key
+
 /-- `rfc6492_revoke` answers positively unless the command failed. -/
 def RevokeOut.positive : RevokeOut → Bool
   | .error => false
